@@ -23,10 +23,10 @@ ECOLS = c03.COLS
 JCOLS = ['atom index', 'start site', 'destination site', 'start time', 'stop time']
 
 
-def frame_coded(T, N, matrix=None):
+def frame_coded(T, N, matrix=None, yshift=0.0):
     coords = np.zeros((T, N, 3))
     coords[:, :, 0] = ((np.arange(T) + 1) / (T + 2))[:, None]
-    coords[:, :, 1] = (np.arange(N) / (N + 1))[None, :]
+    coords[:, :, 1] = (np.arange(N) / (N + 1))[None, :] + yshift
     coords[:, :, 2] = 0.5
     return cases.trajectory(coords, ['Li'] * N, matrix if matrix is not None else np.eye(3) * 10.0, 2e-15, 500.0)
 
@@ -69,7 +69,8 @@ def run(case):
     events = gcall(_calculate_transition_events, atom_sites=states, atom_inner_sites=inner)
     n_sites = int(max(states.max(), 0)) + 1
     traj = frame_coded(T, N)
-    tr = Transitions(trajectory=traj, diff_trajectory=frame_coded(T, N), sites=c03.dummy_sites(n_sites), events=events, states=states, inner_states=inner)
+    # (the trajectory of the diffusing atoms is an object of its own: here a re-centred copy, its y coordinates moved by 1/8)
+    tr = Transitions(trajectory=traj, diff_trajectory=frame_coded(T, N, yshift=0.125), sites=c03.dummy_sites(n_sites), events=events, states=states, inner_states=inner)
     n_max = min(len(events), T - 1)
     if n_max < 1:
         raise Skip()
@@ -81,6 +82,10 @@ def run(case):
     orig_by_time = sorted(orig, key=lambda r: r[5])
 
     # ---- Transitions.split
+    views_first = (int(np.abs(states).sum()) + T + n) % 2 == 0
+    if views_first:
+        gcall(tr.states_prev)  # the parent's own views are requested before it is split (whatever they remember stays with the parent)
+        gcall(tr.states_next)
     parts = gcall(tr.split, n)
     if len(parts) != n:
         raise Violation('transitions-n-parts', f'{len(parts)} parts for n_parts={n}')
@@ -121,6 +126,17 @@ def run(case):
             raise Violation('parts-chronological', f'part {k} holds an event at original time {int(p.events["time"].max()) + offsets[k]} >= next offset {nxt}')
     # the parts' trajectories
     part_ranges([p.trajectory for p in parts], T, 'transitions-trajectory')
+    dr = part_ranges([p.diff_trajectory for p in parts], T, 'transitions-diff-trajectory')
+    for k, p in enumerate(parts):
+        dp = np.array(gcall(lambda: p.diff_trajectory.positions))
+        if dp.shape[1:] != (N, 3) or np.abs(dp[:, :, 1] - (np.arange(N) / (N + 1) + 0.125)[None, :]).max() > 1e-9:
+            raise Violation('transitions-diff-trajectory-part-frames-altered', f'part {k}/{n}: the diffusing-atom trajectory of the part ({dp.shape[1]} atoms) is not a frame range of the source\'s diffusing-atom trajectory ({N} atoms, own coordinates)')
+    # every part is a Transitions object of its own: its previous / next views describe its own frames
+    for k, p in enumerate(parts):
+        ps_ = np.asarray(p.states)
+        for got_, want_, nm_ in ((gcall(p.states_prev), oracle.ffill_model(ps_), 'previous'), (gcall(p.states_next), oracle.bfill_model(ps_), 'next')):
+            if np.shape(got_) != want_.shape or not np.array_equal(np.asarray(got_), want_):
+                raise Violation('part-views-describe-the-part', f'part {k}/{n}: {nm_}-site view has shape {np.shape(got_)} for {ps_.shape[0]} frames' + ('' if np.shape(got_) != want_.shape else ' and differs from the forward/backward fill of the part\'s own states') + f' (parent views requested first: {views_first})')
     # splitting is a read-only query of the source: its own record is unchanged and a second split gives the same parts
     now = sorted(tuple(int(x) for x in r) for r in tr.events[ECOLS].to_numpy())
     if now != orig or not np.array_equal(np.asarray(tr.states), states) or not np.array_equal(np.asarray(tr.inner_states), inner):
